@@ -26,13 +26,21 @@ Proof. exact words_on_lines. Qed.
 Print Assumptions C06_words_on_lines.
 
 (* 3. Tag/block pre-processing only inserts empty lines ... *)
-Theorem C06_preprocess_only_inserts : forall lines prev,
-  ins_blanks (preprocess_lines prev lines) lines.
+Theorem C06_preprocess_only_inserts : forall lines prev inb,
+  ins_blanks (preprocess_lines prev inb lines) lines.
 Proof. exact preprocess_lines_only_inserts. Qed.
 Print Assumptions C06_preprocess_only_inserts.
 
-(* ... and afterwards no non-blank tag-only line is directly adjacent to a list/table line. *)
-Theorem C06_preprocess_separates : forall lines prev,
-  adjacent_ok prev (preprocess_lines prev lines) = true.
+(* ... and afterwards no non-blank tag-only line is directly adjacent to a list/table line (the pass as fill_markdown runs it; the flag
+   that remembers an open list or table - fix c8c087c - starts unset). *)
+Theorem C06_preprocess_separates : forall lines,
+  adjacent_ok None (preprocess_lines None false lines) = true.
 Proof. exact preprocess_lines_separates. Qed.
 Print Assumptions C06_preprocess_separates.
+
+(* a list whose last item goes on over a second line is separated from the closing tag line as well *)
+Theorem C06_continued_item_separated :
+  preprocess_lines None false [[123;37;32;102;32;37;125]; [45;32;97]; [32;32;98]; [123;37;32;47;102;32;37;125]]%N
+  = [[123;37;32;102;32;37;125]; []; [45;32;97]; [32;32;98]; []; [123;37;32;47;102;32;37;125]]%N.
+Proof. exact continued_item_separated. Qed.
+Print Assumptions C06_continued_item_separated.
